@@ -1243,6 +1243,9 @@ class Term(Container):
                 key = "denom" if exponent < 0 else "num"
             else:
                 key = 'remainder'
+                # no denominator for the remainder: keep the sign
+                ret[key] *= Pow(base, exponent)
+                continue
             ret[key] *= Pow(base, abs(exponent))
         return ret
 
